@@ -48,6 +48,21 @@ def make_models(variant=0):
     class IntBox(Box[int, float]):
         pass
 
+    # type variables that are NOT in the base's order, and Generic[...] listed before the real
+    # base (repaired defects: arguments were zipped with the base's variables; only the first
+    # listed base was looked at)
+    class Pairs(Iterable[U], Generic[T, U]):     # Pairs[str, float] iterates floats
+        def key(self) -> T: ...
+
+    class Base1(Generic[U]):
+        def val(self) -> U: ...
+
+    class Sub12(Base1[U], Generic[T, U]):         # Sub12[int, float].val() -> float
+        def other(self) -> T: ...
+
+    class Sub21(Generic[T], Base1[T]):            # Generic first
+        pass
+
     class JetColl(Coll[Jet]):        # non-generic subclass of a generic Iterable subclass
         def best(self) -> Jet: ...
 
@@ -93,6 +108,9 @@ def make_models(variant=0):
         def lead(self) -> Jet: ...
         def box(self) -> Box[Jet, int]: ...
         def ibox(self) -> IntBox: ...
+        def pairs(self) -> Pairs[str, float]: ...
+        def sub12(self) -> Sub12[int, float]: ...
+        def sub21(self) -> Sub21[float]: ...
         def untyped(self): ...
     return dict(Event=Event, Jet=Jet, Track=Track, Coll=Coll, Grid=Grid, Box=Box, IntBox=IntBox,
                 JetColl=JetColl, Particle=Particle, num=num, other=other)
@@ -131,6 +149,9 @@ def _cases(M, E, J, Tk, it):
         ("e.box().first()", J), ("e.box().second()", int), ("e.box().both()", it(J)),
         ("e.ibox().first()", int), ("e.ibox().second()", float),
         ("e.untyped()", Any), ("e.lead().lead().noann()", Any),
+        ("e.pairs().First()", float), ("e.pairs()[0]", float), ("e.pairs().key()", str),
+        ("e.pairs().Select(lambda p: p + 1)", it(float)), ("e.pairs().Count()", int),
+        ("e.sub12().val()", float), ("e.sub12().other()", int), ("e.sub21().val()", float),
         # collection operators
         ("e.Jets().First()", J), ("e.Jets().First().pt()", float), ("e.Jets().Count()", int),
         ("len(e.Jets())", int), ("e.Jets()[0]", J), ("e.Jets()[0].ntrk()", int),
